@@ -32,7 +32,7 @@
 #include <time.h>
 #include <unistd.h>
 
-#define MAXMSG 70000
+#define MAXMSG 400000	/* byte-stream sends may be much larger than a message */
 #define MAXSENT 4096
 
 static FILE *out;
@@ -1042,6 +1042,9 @@ static void do_send(int e, long len, long wc, int werr, int pol)
 	    stream_append(e, sbuf, rc);
 	    cap_len[e] = 0;
 	}
+	/* the buffer is the application's again as soon as the call has returned: what was accepted must not depend
+	   on what the application writes into it afterwards */
+	memset(sbuf, 0xEE, (size_t)blen);
 	if (rc < 0 && err == EAGAIN && blen > 0) {
 	    ref_tok[e] = tok;
 	    ref_len[e] = blen;
